@@ -336,6 +336,13 @@ def scalar_binop(ctx: Ctx, op: str, a, b, guard=True):
     if na is None or nb is None:
         raise Unsupported(f"binop {op} on {type(a).__name__},{type(b).__name__}")
     both_int = na.is_int and nb.is_int
+    nan_a, nan_b = getattr(na, "isnan", None), getattr(nb, "isnan", None)
+    if (nan_a is not None or nan_b is not None) and op in ("+", "-", "*", "/"):
+        # IEEE: NaN propagates through arithmetic (value part is irrelevant when the flag is set)
+        from .lib_np import NanNum
+        plain = scalar_binop(ctx, op, Num(na.z, na.is_int), Num(nb.z, nb.is_int), guard)
+        flag = z3.Or(nan_a if nan_a is not None else False, nan_b if nan_b is not None else False)
+        return NanNum(as_real(plain), z3.simplify(flag))
     if op in ("+", "-", "*"):
         if both_int:
             x, y = na.z, nb.z
